@@ -104,7 +104,7 @@ def build_c(q):
     shutil.rmtree(wd, ignore_errors=True); os.makedirs(wd)
     harness = os.path.join(VERIF, 'harness', ob['harness'])
     defs = ['-D%s=%s' % (k, v) for k, v in sorted(q.params.items())] + ['-D%s=1' % d for d in q.excludes]
-    flags = BASE_FLAGS + list(ob.get('cxxflags', [])) + defs
+    flags = ['-I' + os.path.join(VERIF, 'harness', d) for d in ob.get('shim_includes', [])] + BASE_FLAGS + list(ob.get('cxxflags', [])) + defs
     must([CLANGXX] + flags + ['-S', '-emit-llvm', harness, '-o', 'h.ll'], 'clang++ harness', cwd=wd)
     lls = ['h.ll']
     tudir = os.path.join(WORK, q.prop, '_tu'); os.makedirs(tudir, exist_ok=True)
@@ -216,6 +216,12 @@ def run_cbmc(q, extra=()):
     cu = str(ob.get('copy_unwind', 40))
     uws = ','.join('%s.%d:%s' % (f, i, cu) for f, k in (('vf_memcpy', 2), ('vf_memmove', 4)) for i in range(k))
     if ob.get('unwindset'): uws += ',' + ob['unwindset']
+    if ob.get('unwind_loops'):
+        # loops named by regex over CBMC's loop identifiers (function name + index), e.g. container growth loops
+        sl = run(['cbmc', 'q.c', '--show-loops'], cwd=q.wd, timeout=120)['out']
+        for nm in re.findall(r'^Loop (\S+):', sl, re.M):
+            for rx, n in ob['unwind_loops']:
+                if re.search(rx, nm): uws += ',%s:%d' % (nm, n); break
     cmd += ['--unwindset', uws]
     if ob.get('sat_solver'): cmd += ['--sat-solver', ob['sat_solver']]
     tier_to = ob.get('timeout', 600)
@@ -273,10 +279,10 @@ def native_exe(q, asan=False):
         with open(os.path.join(q.wd, 'native_ext.c'), 'w') as f:
             for e in extn: f.write('char %s[512];\n' % e)
         must([CLANG, '-O0', '-w', '-c', 'native_ext.c', '-o', name + '.ext.o'], 'native build (externals)', cwd=q.wd); objs.append(name + '.ext.o')
-    ntus = list(q.ob.get('native_tus', []))
     und = run(['nm', '-u', name + '.mod.o'], cwd=q.wd)['out']
+    ntus = list(q.ob.get('native_tus', []))
     if 'grow_pod' in und and not any('SmallVector.cpp' in t for t in ntus): ntus.append('lib/llvm/Support/SmallVector.cpp')
-    if ntus: ntus.append(os.path.join(ENGINE, 'native_support.cpp'))
+    if ntus or 'report_bad_alloc_error' in und or 'report_fatal_error' in und: ntus.append(os.path.join(ENGINE, 'native_support.cpp'))
     for i, t in enumerate(ntus):
         o = '%s.tu%d.o' % (name, i)
         must([CLANGXX, '-O1', '-w', '-c', '-std=c++14', '-fno-rtti', '-fno-exceptions', '-DNDEBUG', '-I' + REPO + '/include', '-I' + REPO + '/lib/llvm/Support',
